@@ -29,6 +29,9 @@ TEMPLATES = {
     "HOOH_rev": (["O", "H", "O", "H"], [(0.73, 0.0, 0.0), (-1.062, 0.6445, -0.6445), (-0.73, 0.0, 0.0), (1.062, 0.6445, 0.6445)], [(3, 0), (0, 2), (2, 1)]),
     # dihydrogen: a bond between two hydrogens (0.74 A, threshold 1.02 A)
     "H2": (["H", "H"], [(0.0, 0.0, 0.0), (0.74, 0.0, 0.0)], [(0, 1)]),
+    # a molecule that is one atom (argon, a lone oxygen as in an oxide ion)
+    "Ar": (["Ar"], [(0.0, 0.0, 0.0)], []),
+    "O1": (["O"], [(0.0, 0.0, 0.0)], []),
     "HHO": (["H", "H", "O"], [(0.757, 0.586, 0.0), (-0.757, 0.586, 0.0), (0.0, 0.0, 0.0)], [(0, 2), (1, 2)]),
 }
 
@@ -44,6 +47,11 @@ ZPRIME = {
     "1hooh_scr": ["HOOH_scr"],
     "2h2_h2o": ["H2", "H2O"],
     "2hooh_rev_h2o": ["HOOH_rev", "H2O"],
+    # degenerate sizes: a one-atom molecule before / after an ordinary one, alone, and two of them
+    "2ar_h2o": ["Ar", "H2O"],
+    "2h2o_ar": ["H2O", "Ar"],
+    "1ar": ["Ar"],
+    "2o_ar": ["O1", "Ar"],
 }
 
 CENTRES = (0.017, 0.137, 0.289, 0.611, 0.983)
